@@ -23,11 +23,11 @@ RTOL = 1e-7          # unit-bearing identity (DESIGN §5): CODATA vintage / 12-d
 
 DIMS = OrderedDict([
     ("shape", [[2, 1], [1, 1], [1, 2], [3, 1], [2, 2], [8, 10]]),
-    ("weights", ["equal", "increasing", "scaled"]),
+    ("weights", ["equal", "increasing", "scaled", "int"]),
     ("wset", ["mid", "low", "edge"]),
     ("gset", ["distinct", "same", "zero"]),
     ("bset", ["distinct", "zero"]),
-    ("tgrid", ["std", "zero", "low", "hot"]),
+    ("tgrid", ["std", "zero", "low", "hot", "desc", "mid0", "n8", "n16"]),
     ("vgrid", ["three", "one", "five"]),
     ("strain", ["const", "thirds", "extreme", "field"]),
     ("pkind", ["zero", "positive", "signed"]),
